@@ -175,6 +175,40 @@ def pts_subset(tier):
     return pts
 
 
+def pts_zero(tier):
+    pts = []
+    for n in range(1, (5 if tier == 'thorough' else 4) + 1):
+        for ws in itertools.product((0, 1, 2, 3), repeat=n):
+            if 0 in ws:
+                pts.append(tuple(ws))
+    return pts
+
+
+def run_zero(ctx, pt):
+    """item lists that contain items of weight zero (they change no sum: never needed, never harmful)"""
+    ws = list(pt)
+    items = items_of(ws)
+    for s_ in range(0, sum(ws) + 2):
+        K = fresh_knapsack()
+        judge_subset(ctx, 'C20/dynprog/zero-weight-items', items, s_, ctx.attempt(K.dynprog, list(items), s_), True)
+        if s_ > 0:
+            judge_subset(ctx, 'C20/exactsum/zero-weight-items', items, s_, ctx.attempt(K.exactsum, list(items), s_), False)
+
+
+def judge_acc(ctx, key, items, s_, res, acc):
+    """exactsum called with the caller's own result list: truthy exactly when solvable, and the list then holds a solution"""
+    need = brute(items, s_)
+    if res[0] != 'ok':
+        ctx.fail(key + '/exception', 'an answer', res)
+        ctx.cmps += 1
+        return
+    ctx.ok(key + '/wrong-verdict', bool(res[1]) == (need is not None), (res[1], need))
+    if need is not None and res[1]:
+        cnt = collections.Counter(acc)
+        ctx.ok(key + '/not-a-sub-collection', all(it in items for it in acc) and all(c <= 1 for c in cnt.values()), (sorted(acc), s_))
+        ctx.ok(key + '/wrong-sum', sum(w for _, w in acc) == s_, (sorted(acc), s_))
+
+
 def fresh_knapsack():
     import crysp.utils.knapsack as K
     return importlib.reload(K)
@@ -194,6 +228,8 @@ def run_subset(ctx, pt):
             r = ctx.attempt(K.exactsum, l, s)
             judge_subset(ctx, 'C20/exactsum', items, s, r, False)
             ctx.eq('C20/exactsum/input-mutated', l, items)
+            acc = []
+            judge_acc(ctx, 'C20/exactsum/own-result-list', items, s, ctx.attempt(K.exactsum, list(items), s, 0, acc), acc)
 
 
 class SubsetSys(HSystem):
@@ -211,8 +247,10 @@ class SubsetSys(HSystem):
         return (canon(K.exactsum.__defaults__), canon(K.dynprog.__defaults__), canon(getattr(K.exactsum, '__dict__', {})), o['ver'],
                 repr(o['last']))
 
+    ACC = [('exactsum-own-result-list', (1, 3, 6), 4), ('exactsum-own-result-list', (3, 5, 7), 4), ('exactsum-own-result-list', (2, 2, 5), 7)]
+
     def events(self, o):
-        return list(self.CALLS) + [('shared-list', 'exactsum', 43), ('shared-list', 'dynprog', 43), ('shared-list', 'exactsum', 5), ('shared-list', 'dynprog', 12),
+        return list(self.CALLS) + list(self.ACC) + [('shared-list', 'exactsum', 43), ('shared-list', 'dynprog', 43), ('shared-list', 'exactsum', 5), ('shared-list', 'dynprog', 12),
                                    ('overwrite-shared-list',), ('scribble-last-result',)]
 
     def apply(self, o, ev):
@@ -231,6 +269,9 @@ class SubsetSys(HSystem):
             o['last'] = v
             o['items'] = list(items_of(self.SHARED[o['ver']]))
             return list(v) if isinstance(v, list) else v
+        if ev[0] == 'exactsum-own-result-list':
+            o['acc'] = []
+            return o['K'].exactsum(items_of(ev[1]), ev[2], 0, o['acc'])
         f = getattr(o['K'], ev[0])
         v = f(items_of(ev[1]), ev[2])
         o['last'] = v
@@ -244,6 +285,9 @@ class SubsetSys(HSystem):
             ctx.eq('C20/history/%s/caller-owned-list/input-mutated' % ev[1], list(o['L']), o['items'])
             return
         items = items_of(ev[1])
+        if ev[0] == 'exactsum-own-result-list':
+            judge_acc(ctx, 'C20/history/exactsum/own-result-list', items, ev[2], res, o.get('acc', []))
+            return
         judge_subset(ctx, 'C20/history/%s' % ev[0], items, ev[2], res, ev[0] == 'dynprog')
         def first_answer():
             K2 = fresh_knapsack()
@@ -346,12 +390,13 @@ def subchecks():
         Sub('subset-sum', pts_subset, run_subset, engine='D',
             bound='every item list of length 0..5 (thorough 0..6) with weights in {1,2,3,5} x every target 0..sum+1 (exactsum: 1..sum+1), each on a freshly loaded module'),
         Sub('big-weights', pts_bigweights, run_bigweights, engine='D', bound='exactsum on every 1-3 subset of 5 weights around 2^53, 2^60, 2^64 x every reachable target and two unreachable ones (dynprog is O(target) and not run there)'),
+        Sub('zero-weights', pts_zero, run_zero, engine='D', bound='every item list of length 1..4 (thorough 5) over weights {0,1,2,3} with at least one zero weight x every target'),
         Sub('scaled-instances', pts_scaled, run_scaled, engine='D',
             bound='every multiset of 3 weights over {1,2,3,6} multiplied by 22000 (targets beyond 2^16), with and without one unscaled item of weight 7, targets t*22000 and t*22000+7 for t in {sum, sum/2, max, sum-min, sum+1} (thorough: every t in 1..sum+1, both item orders): dynprog minimal, exactsum exact, vs brute force'),
         hsub('combink-iterators', comb_systems, lambda tier: 4 if tier == 'quick' else 5,
              bound='two caller-held combink enumerations over 4 (n,p) shapes: start / next / drain / close / drop on either, all histories to depth 4 (thorough 5) on one loaded module; every yielded combination and every remainder equals itertools.combinations; state = function attributes + (shape, position, liveness) of both'),
         hsub('call-histories', systems, lambda tier: 3 if tier == 'quick' else 4,
-             bound='8 exactsum/dynprog calls, 4 calls on one caller-owned list object, overwriting that list in place, scribbling on the last returned result; all histories to depth 3 (thorough 4) on one loaded module, deduplicated by the functions\' default-argument state'),
+             bound='8 exactsum/dynprog calls, 3 exactsum calls with the caller\'s own result list, 4 calls on one caller-owned list object, overwriting that list in place, scribbling on the last returned result; all histories to depth 3 (thorough 4) on one loaded module, deduplicated by the functions\' default-argument state'),
     ]
 
 
